@@ -66,6 +66,7 @@ pub fn checks() -> Vec<Check> {
             st("c01.s4", c01::s4, (0, 0), 3, "hooked packet capacity 1..9 x npoints 0..3c+1 x every catalogue type"),
             st("c01.s6", c01::s6, (0, 0), 3, "extension attribute of every catalogue type at the first/last prototype position x capacity {1,3} x npoints {0,1,4} x one or two registered extensions"),
             st("c01.s7", c01::s7, (0, 0), 3, "every attribute-group subset (3 coordinate kinds x 2^10 group/flag bits, invalid combinations skipped), 5 points, capacity 2"),
+            st("c01.s2deep", c01::s2deep, (0, 0), 3, "all writer programs of depth exactly 4 (quick: 20 736) / 5 (thorough: 248 832) over a 12-op sub-alphabet (4 blob sizes, 2 images, 6 clouds)"),
             st("c01.s5", c01::s5, (0, 0), 2, "two hooked-capacity clouds around a pad blob at all 255 residues x prototype pairs"),
         ],
         extra: None,
@@ -121,7 +122,7 @@ pub fn checks() -> Vec<Check> {
         id: "C04",
         level: "model_checking",
         stages: vec![
-            st("c04.lattice", c04::lattice, (2, 3), 3, "presence lattice of 34 optional fields (root, cloud, image): all subsets within <=2/3 toggles of all-absent and of all-present x 5 image kinds x 3 finalize modes"),
+            st("c04.lattice", c04::lattice, (3, 4), 3, "presence lattice of 34 optional fields (root, cloud, image): all subsets within <=3 (thorough <=4) toggles of all-absent and of all-present x 5 image kinds x 3 finalize modes"),
             st("c04.types", c04::types, (0, 0), 3, "every catalogue data type (floats with none / both / one-sided limits, ~190 integer and scaled-integer ranges) as coordinate, intensity, colour, time stamp and extension record: prototype read back unchanged"),
             st("c04.strings", c04::strings, (0, 0), 3, "every catalogue string (all strings of length <=3 over 12 XML-critical characters + 20 long ones) in every string field, rotated per field"),
             st("c04.floats", c04::floats, (0, 0), 3, "every float of the mini-float lattice + specials (NaN, inf, subnormals, extremes) in every float field x 3 projection kinds"),
@@ -219,7 +220,7 @@ pub fn checks() -> Vec<Check> {
             st("c10.protos_groups", c10::protos_groups, (0, 0), 3, "all name sequences of length 1..4 over the 9 coordinate/colour component names (every combination of missing and repeated group members)"),
             Stage { timeout_s: 30, ..st("c10.protos_wide", c10::protos_wide, (0, 0), 3, "XYZ + k extension records (64-bit / 1-bit / zero-width) for every k in 5880..5930, 20790..20830, 21650..21700, 60..64 x {1,3} points: every call returns, success implies read-back") },
             st("c10.values", c10::values, (0, 0), 3, "unstorable value (9 kinds) at every position 0..8 of a 9-point cloud x 8 integer types x 2 record slots"),
-            st("c10.orders", c10::orders, (0, 0), 3, "all sequences of depth <=3 (quick) / <=4 (thorough) over 15 API sessions incl. misuse x 3 finalize modes"),
+            st("c10.orders", c10::orders, (0, 0), 3, "all sequences of depth <=4 (quick) / <=5 (thorough) over 15 API sessions incl. misuse x 3 finalize modes"),
         ],
         extra: None,
         rule: "every prototype / value / call-order case of the stated products is executed on the real writer under catch_unwind; expected verdicts come from a plain predicate of the documented rules; non-trivial = all calls succeeded and the file was read back and compared",
@@ -340,7 +341,7 @@ pub fn checks() -> Vec<Check> {
         id: "C19",
         level: "model_checking",
         stages: vec![
-            st("c19.layouts", c19::layouts, (1, 2), 3, "11 scenes encoded by e57spec under every layout with <=1 (thorough <=2) deviations: copy, compare as read, copy the copy (byte-identical), write twice (byte-identical)"),
+            st("c19.layouts", c19::layouts, (2, 3), 3, "11 scenes encoded by e57spec under every layout with <=2 (thorough <=3) deviations: copy, compare as read, copy the copy (byte-identical), write twice (byte-identical)"),
             st("c19.programs", c19::programs, (0, 0), 3, "outputs of all writer programs of depth <=2 (thorough <=3) and 1905 metadata-rich files (every catalogue string in every string field, 5 image kinds rotating)"),
             st("c19.align", c19::align, (0, 0), 3, "first cloud of 0..344 byte-sized points moves the second cloud's section of the copy through all 255 aligned residues of the page payload"),
             st("c19.bundled", c19::bundled, (0, 0), 3, "every bundled /repo/testdata/*.e57 that opens and whose prototypes follow the writer's documented rules"),
